@@ -93,6 +93,8 @@ def run(rec, cfg):
                 except (Exception, RecursionError):
                     pass
     k = 0
+    if cfg.shard == 5 % cfg.nshards:
+        RC.wide_ints(rec, rules)
     for src, text, hints in RC.start_texts(cfg, rng, n, equations=0.25):
         if cfg.out_of_time():
             rec.truncated = True
